@@ -10,7 +10,7 @@ Messages are packed ~PACK per schema so one sbeppc run and one header tree serve
 """
 import itertools
 
-from ..model.ir import (Comp, Data, Field, Group, Msg, Schema, T, std_header)
+from ..model.ir import (Comp, Data, Enum, Field, Group, Msg, Schema, SetT, T, std_header)
 
 UINTS = [("u8", "uint8"), ("u16", "uint16"), ("u32", "uint32"), ("u64", "uint64")]
 
@@ -23,6 +23,11 @@ ALPHA = {
     "a0": ("A0", 0, False),
     "cmp": ("CMP", 4, False),
     "cst": ("CST", 0, True),
+    # kinds the generator special-cases (family AL puts each of them last / first / alone on a level)
+    "en": ("EN", 1, False),
+    "st": ("ST", 2, False),
+    "nt": ("NT", 4, False),
+    "u32o": ("uint32", 4, False, "optional"),
 }
 ALPHA_QUICK = ["u8", "u16", "a3", "cmp", "cst", "u64", "a0"]
 
@@ -37,7 +42,10 @@ def common_types():
         ts.append(Comp("vs_%s" % ln, [T("length", lt), T("varData", "char", length=0)]))
     ts += [T("A3", "char", length=3), T("A0", "char", length=0),
            Comp("CMP", [T("a", "uint8"), T("b", "uint16", offset=2)]),
-           T("CST", "uint8", presence="constant", const="7")]
+           T("CST", "uint8", presence="constant", const="7"),
+           Enum("EN", "uint8", [("A", 1), ("B", 2), ("C", 200)]),
+           SetT("ST", "uint16", [("c0", 0), ("c3", 3), ("c15", 15)]),
+           T("NT", "int32", presence="optional", nl="-7")]
     return ts
 
 
@@ -89,7 +97,8 @@ def build_fields(spec, ids, prefix="f"):
     fields = []
     off = 0
     for i, (key, gap) in enumerate(spec):
-        tname, size, is_const = ALPHA[key]
+        tname, size, is_const = ALPHA[key][:3]
+        pres = ALPHA[key][3] if len(ALPHA[key]) > 3 else None
         if is_const:
             fields.append(Field("%s%d" % (prefix, i), ids.next(), tname))
             continue
@@ -97,7 +106,7 @@ def build_fields(spec, ids, prefix="f"):
         if gap is not None:
             o = off + gap
             off = o
-        fields.append(Field("%s%d" % (prefix, i), ids.next(), tname, offset=o))
+        fields.append(Field("%s%d" % (prefix, i), ids.next(), tname, offset=o, presence=pres))
         off += size
     return fields, off
 
@@ -144,6 +153,42 @@ def family_a(tier):
                 g = Group("g", ids.next(), fields, [h], [Data("gd", ids.next(), cyc.data())], dim=cyc.dim(),
                           block_length=bl_value(blm, mn))
                 yield desc, Msg(name, k, [Field("r", ids.next(), "uint8")], [g], [Data("d", ids.next(), cyc.data())])
+
+
+def _place(placement, spec, blm, name, k, cyc):
+    ids = Ids()
+    fields, mn = build_fields(spec, ids)
+    if placement == "root":
+        return Msg(name, k, fields, block_length=bl_value(blm, mn))
+    if placement == "root+flat+data":
+        g = Group("g", ids.next(), [Field("x", ids.next(), "uint16")], dim=cyc.dim())
+        return Msg(name, k, fields, [g], [Data("d", ids.next(), cyc.data())], block_length=bl_value(blm, mn))
+    if placement == "flat-entry":
+        g = Group("g", ids.next(), fields, dim=cyc.dim(), block_length=bl_value(blm, mn))
+        return Msg(name, k, [Field("r", ids.next(), "uint8")], [g])
+    h = Group("h", ids.next(), [Field("y", ids.next(), "uint8")], dim=cyc.dim())
+    g = Group("g", ids.next(), fields, [h], [Data("gd", ids.next(), cyc.data())], dim=cyc.dim(), block_length=bl_value(blm, mn))
+    return Msg(name, k, [Field("r", ids.next(), "uint8")], [g], [Data("d", ids.next(), cyc.data())])
+
+
+def family_al(tier):
+    """every representation kind the generator special-cases as the only / the last / a non-last field of a level, in all
+    four placements: the last non-constant field of a level has its own cursor accessors per kind"""
+    cyc = Cycler()
+    kinds_ = ["u64", "a0", "en", "st", "nt", "u32o"] if tier == "quick" else list(ALPHA)
+    gaps = [None] if tier == "quick" else [None, 3]
+    bls = ["implicit", "plus5"] if tier == "quick" else ["implicit", "exact", "plus5"]
+    k = 0
+    for kd in kinds_:
+        for spec0 in ([kd], ["u8", kd], [kd, "u8"]):
+            for gap in gaps:
+                spec = [(key, None if ALPHA[key][2] else gap) for key in spec0]
+                for blm in bls:
+                    for placement in ("root", "root+flat+data", "flat-entry", "nested-entry"):
+                        name = "l%d" % k
+                        k += 1
+                        desc = "AL:%s:%s:%s" % (placement, ",".join("%s%s" % (key, "" if g is None else "+%d" % g) for key, g in spec), blm)
+                        yield desc, _place(placement, spec, blm, name, k, cyc)
 
 
 def _family_a_old(tier):
@@ -270,6 +315,7 @@ def catalogue(tier, byte_order="littleEndian", pack=40, families=("A", "B")):
     msgs = []
     if "A" in families:
         msgs += list(family_a(tier))
+        msgs += list(family_al(tier))
     if "B" in families:
         msgs += list(family_b(tier))
         msgs += list(family_b3(tier))
